@@ -768,7 +768,8 @@ func runGS(args []string) []string {
 				chal = "fresh"
 			}
 			c := chals[ci]
-			if len(c) != 128 {
+			// "unpredictable": at least 128 bits from the random source (the statement does not fix the length)
+			if len(c) < 32 {
 				chal = fmt.Sprintf("len%d", len(c)/2)
 			}
 			for _, old := range chals[:ci] {
